@@ -666,6 +666,8 @@ class FileSystem(SimComponent):
 
         def __call__(self, request: RequestFormat, context: Dict) -> bool:
             """Returns True if folder exists."""
+            if len(request) < 1:
+                return False  # a request that names no folder addresses nothing that exists
             return self.file_system.get_folder(folder_name=request[0]) is not None
 
         @property
@@ -686,6 +688,8 @@ class FileSystem(SimComponent):
         def __call__(self, request: RequestFormat, context: Dict) -> bool:
             """Returns True if folder exists and is not deleted."""
             # get folder
+            if len(request) < 1:
+                return False
             folder = self.file_system.get_folder(folder_name=request[0], include_deleted=True)
             return folder is not None and not folder.deleted
 
@@ -706,6 +710,8 @@ class FileSystem(SimComponent):
 
         def __call__(self, request: RequestFormat, context: Dict) -> bool:
             """Returns True if file exists."""
+            if len(request) < 2:
+                return False  # a request that names no folder and file addresses nothing that exists
             return self.file_system.get_file(folder_name=request[0], file_name=request[1]) is not None
 
         @property
